@@ -10,7 +10,10 @@ HERE = os.path.dirname(os.path.abspath(__file__))
 def main(prop, tier, only=None, caps=None):
     mode = 'P10' if prop == 'C10' else 'P11'
     if caps is None:
-        caps = [1, 2, 3, 10] if tier == 'quick' else [1, 2, 3, 4, 7, 10, 15, 16]
+        if prop == 'C10':
+            caps = [1, 3, 10] if tier == 'quick' else [1, 2, 3, 4, 7, 10, 15, 16]
+        else:
+            caps = [1, 2, 3] if tier == 'quick' else [1, 2, 3, 4, 5, 7, 10]
     units = []
     for L in caps:
         units.append(Unit('fixed_string_' + prop, 'L%d' % L, os.path.join(HERE, 'w_fs.cpp'), os.path.join(HERE, 'h_fs.c'),
